@@ -1552,6 +1552,25 @@ _vbi_cache_put_page		(vbi_cache *		ca,
 			       cp->pgno,
 			       subno & subno_mask,
 			       subno_mask);
+	if (NULL != old_cp && 0 == subno_mask) {
+		cache_page *cp2, *cp3;
+
+		/* We store only one version of this page. old_cp is just
+		   the most recently used one: versions stored earlier with a
+		   subpage number (another reading of the subcode, see above)
+		   must go too, or the number of cached versions grows with
+		   each change of reading. Pages still in use are removed
+		   from the cache and marked for deletion when unref'd. */
+		FOR_ALL_NODES (cp2, cp3, ca->hash + hash (cp->pgno), hash_node) {
+			if (cp2 != old_cp
+			    && cp2->pgno == cp->pgno
+			    && cp2->network == cn)
+				delete_page (ca, cp2);
+		}
+
+		memory_available = ca->memory_limit - ca->memory_used;
+	}
+
 	if (NULL != old_cp) {
 		if (CACHE_DEBUG) {
 			fputs ("is cached ", stderr);
